@@ -379,7 +379,7 @@ def run(ctx):
         ctx.violation("static-lib-build", "coq/lib or coq/model does not build", {"log": log[-3000:]}, found_input=False)
         return
     files = ctx.copy_props("C03/C03_theorems.v")
-    for extra in ("C03_renumber.v", "C03_bounds.v"):
+    for extra in ("C03_renumber.v", "C03_bounds.v", "C03_layout.v"):
         if os.path.exists(os.path.join(common.COQ, "props", "C03", extra)):
             files += ctx.copy_props("C03/" + extra)
     r = ctx.coq(files, timeout=600)
